@@ -1,0 +1,30 @@
+//go:build verif
+
+package cff
+
+import (
+	ps "github.com/go-text/typesetting/font/cff/interpreter"
+	ot "github.com/go-text/typesetting/font/opentype"
+	"github.com/go-text/typesetting/font/opentype/tables"
+)
+
+// Verification hooks for property C10 (Type 2 charstrings).  Add-only.
+
+// VerifSubrs returns the local subroutines LoadGlyph selects for the glyph (through fdSelect for
+// CID fonts) and the global subroutines.
+func (f *CFF) VerifSubrs(glyph tables.GlyphID) (local, global [][]byte, err error) {
+	var index byte
+	if f.fdSelect != nil {
+		index, err = f.fdSelect.fontDictIndex(glyph)
+		if err != nil {
+			return nil, nil, err
+		}
+	}
+	return f.localSubrs[index], f.globalSubrs, nil
+}
+
+// VerifRunCharstring runs LoadGlyph on a one glyph font made of the given charstring and subroutines.
+func VerifRunCharstring(cs []byte, local, global [][]byte) ([]ot.Segment, ps.PathBounds, error) {
+	f := CFF{Charstrings: [][]byte{cs}, globalSubrs: global, localSubrs: [][][]byte{local}}
+	return f.LoadGlyph(0)
+}
